@@ -142,6 +142,38 @@ def check_on_add(program, rep):
               line=f.node.lineno if f else ctl.node.lineno)
 
 
+def check_owner_writers(program, rep):
+    """Only on_add tells a controller its entity / world."""
+    ctl = program.cls('Controller')
+    n = 0
+    for c in [ctl] + program.subclasses(ctl):
+        for m in c.methods.values():
+            for s in ast.walk(m.node):
+                if isinstance(s, ast.Assign):
+                    tg = [t for tt in s.targets for t in (
+                        tt.elts if isinstance(tt, ast.Tuple) else [tt])]
+                elif isinstance(s, (ast.AugAssign, ast.AnnAssign)):
+                    tg = [s.target]
+                elif isinstance(s, ast.Delete):
+                    tg = s.targets
+                else:
+                    continue
+                for t in tg:
+                    if isinstance(t, ast.Attribute) and isinstance(
+                            t.value, ast.Name) and t.value.id == 'self' \
+                            and t.attr in ('entity', 'world'):
+                        n += 1
+                        rep.check(m.name == 'on_add', 'C19.owner', m.where, s,
+                                  'the owner is recorded by on_add',
+                                  f'{m.qualname} overwrites the recorded '
+                                  f'{t.attr}: a controller that is still '
+                                  'attached (re-used in another world under '
+                                  'an equal id, re-added ...) forgets its '
+                                  'owner and every shorthand through it '
+                                  'fails', line=s.lineno)
+    rep.floor('C19.owner', 'stores of Controller.entity / .world', n, 2)
+
+
 def check_refs(program, rep):
     spec = {
         'ComponentReference': {
@@ -475,10 +507,24 @@ def check_update(program, rep):
               line=f.node.lineno)
 
 
+def check_update_world(program, rep):
+    """The relay goes through self.world: add_processor must leave the
+    processor knowing its world on every history (C07's rule, reused)."""
+    from . import c07
+    got = rep.borrow(c07.check_add_processor, program, rep,
+                     keep=lambda o: o.rule == 'C07.protocol',
+                     rename=lambda r: 'C19.update-world',
+                     why='OnUpdateProcessor relays through self.world')
+    rep.floor('C19.update-world', 'world hand-over checks of add_processor',
+              len(got), 2)
+
+
 def run(program, rep, tier):
     PROGRAM[0] = program
     check_forwarders(program, rep)
     check_on_add(program, rep)
+    check_owner_writers(program, rep)
     check_refs(program, rep)
     check_prototype(program, rep)
     check_update(program, rep)
+    check_update_world(program, rep)
